@@ -78,6 +78,19 @@ def gen(rng, tier, directed=None):
         gone = set(rng.sample(range(n), rng.randint(k, n - k)))
         placements = [[sh % nservers, sh, "missing" if sh in gone else "good"] for sh in range(n)]
         layout = "spread"
+    if directed == "boundary":
+        # corruption only, nothing deleted: k-1, k or k+1 share numbers stay good, every other share is corrupted in a
+        # way the verifier detects.  Every server keeps claiming its share, so a verifying repair re-uploads nothing
+        # and the post-repair results sit exactly at the recoverability boundary.
+        n = rng.choice([2, 3, 4, 5, 6, 8])
+        k = rng.randint(1, n)
+        nservers = rng.randint(n, n + 2)
+        ngood = max(0, min(n, k + rng.choice([-1, 0, 0, 0, 1])))
+        goodnums = set(rng.sample(range(n), ngood))
+        placements = [[sh % nservers, sh, "good" if sh in goodnums else rng.choice(["block", "block", "blockhash",
+                                                                                     "cthash", "rehash"])]
+                      for sh in range(n)]
+        layout = "spread"
     dead = []
     if directed is None and rng.random() < .15 and nservers > 1:
         dead = rng.sample(range(nservers), 1)
@@ -112,7 +125,11 @@ def run(ck):
             continue
         rng = ck.rng("case", i)
         j = i // ck.nshards
-        case = gen(rng, ck.tier, "repairable" if j % 6 == 0 else None)
+        case = gen(rng, ck.tier, "repairable" if j % 6 == 0 else "boundary" if j % 6 == 3 else None)
+        if j % 6 == 3:
+            case["repair_verify"] = True
+            case["repair_faults"] = []
+            case["history"] = ["fresh", "read-first"][(j // 6) % 2]
         if j % 6 == 0:
             # directed: node histories and repair-time faults are cycled, not left to chance
             case["nodekind"] = ["verifycap", "readcap"][(j // 6) % 2]
@@ -135,7 +152,8 @@ def run(ck):
                      "check-unrecoverable", "repair-successful", "repair-from-verifycap-node",
                      "read-from-repaired-shares-alone", "repair-failed-or-unsuccessful",
                      "repair-through-node-that-read-before", "second-repair-through-same-node",
-                     "multi-segment-file-repaired", "repair-lost-a-replacement-share")
+                     "multi-segment-file-repaired", "repair-lost-a-replacement-share",
+                     "post-repair-results-with-exactly-k-good-shares")
 
 
 def one_case(ck, rng, case):
@@ -433,6 +451,16 @@ def one_case(ck, rng, case):
                     ck.violation("post-repair-health-disagrees-with-its-sharemap",
                                  "post-repair results: is_healthy()=%s, count-shares-good=%s, sharemap has %d distinct "
                                  "shares of N=%d" % (post.is_healthy(), post.get_share_counter_good(), len(pnums), n), w)
+                if bool(post.is_recoverable()) != (len(pnums) >= k):
+                    ck.violation("post-repair-recoverable-disagrees-with-its-sharemap",
+                                 "post-repair results: is_recoverable()=%s with %d distinct good shares in its sharemap, "
+                                 "k=%d" % (post.is_recoverable(), len(pnums), k), w)
+                if len(pnums) == k:
+                    ck.hit("post-repair-results-with-exactly-k-good-shares")
+                elif len(pnums) == k - 1:
+                    ck.hit("post-repair-results-with-k-minus-1-good-shares")
+                elif len(pnums) == k + 1:
+                    ck.hit("post-repair-results-with-k-plus-1-good-shares")
                 # ground truth on disk: with verify a damaged share is not good, without verify present = good
                 truth = {sh for (s_, sh), v in after.items() if not (rv and v[0] == "damaged")}
                 if (post.is_healthy() or successful) and len(truth) < n:
